@@ -12,8 +12,8 @@ RULE = ("one case = (method, dtype, span sign pattern, initial-dt class and sign
         "non-trivial = >=3 rows recorded by a call that returned; distinct by (method,dtype,span,dt class,history)")
 ASSUMPTIONS = ["dt is at least 64 ulp of the largest time in the span (otherwise time cannot advance in that precision)",
                "a run exceeding its logical step budget (20x the expected step count) is a violation of 'ends at the target' (bounded progress)"]
-FLOORS = {"quick": {"calls_checked": 150, "backward_calls": 40, "mixed_sign_calls": 30, "dt_gt_span_calls": 20, "buffer_growth_runs": 2, "reversal_calls": 5, "closing_rejection_calls": 8, "calls_after_tf_change": 15, "noop_calls": 3, "calls_with_a_long_closing_step_far_from_the_origin": 90},
-          "thorough": {"calls_checked": 1500, "backward_calls": 400, "mixed_sign_calls": 300, "dt_gt_span_calls": 120, "buffer_growth_runs": 8, "reversal_calls": 50, "closing_rejection_calls": 8, "calls_after_tf_change": 150, "noop_calls": 30, "calls_with_a_long_closing_step_far_from_the_origin": 150}}
+FLOORS = {"quick": {"calls_checked": 150, "backward_calls": 40, "mixed_sign_calls": 30, "dt_gt_span_calls": 20, "buffer_growth_runs": 2, "reversal_calls": 5, "closing_rejection_calls": 8, "calls_after_tf_change": 15, "noop_calls": 3, "calls_with_a_long_closing_step_far_from_the_origin": 90, "restricted_domain_calls": 20},
+          "thorough": {"calls_checked": 1500, "backward_calls": 400, "mixed_sign_calls": 300, "dt_gt_span_calls": 120, "buffer_growth_runs": 8, "reversal_calls": 50, "closing_rejection_calls": 8, "calls_after_tf_change": 150, "noop_calls": 30, "calls_with_a_long_closing_step_far_from_the_origin": 150, "restricted_domain_calls": 80}}
 SPANS = [(0.0, 2.0), (-5.0, 1.0), (-10.0, -5.0), (10.0, 5.0), (1.0, -5.0), (3.0, -3.0), (0.0, -2.0), (-2.0, 0.0),
          (1e6, 1e6 + 1.0), (-1e6, -1e6 - 1.0), (-0.5, 0.25), (7.0, 7.5)]
 QUICK_METHODS = ["RK45CKSolver", "DOPRI45", "RK4Solver", "EulerSolver", "HeunEulerSolver", "RK8713MSolver", "ABAs5o6HSolver",
@@ -68,6 +68,24 @@ def gen_cases(tier, seed):
             t0_ = float(rng.uniform(-3, 3))
             cases.append(dict(kind="closing", method=name, dtype="float64", span=[t0_, t0_ + d_ * float(rng.uniform(1.0, 3.0))], dt=0.02, dtfrac=0.01, history="single",
                               pseed=int(rng.integers(1 << 30)), dense=False, cost=10 if M[name]["explicit"] else 60))
+    # right-hand sides defined on part of the state space only (draining tank h' = -k sqrt(h), run to 90-97% of the emptying time): a long TRIAL step
+    # leaves the domain and has no valid error estimate (NaN); the call may fail loudly, but a call that reports success has stored finite values only.
+    # Also a component that is identically zero under a purely relative tolerance (error ratio 0/0)
+    rngd = rng_for(303, seed)
+    dom_methods = [n for n in M if M[n]["adaptive"] and M[n]["explicit"]] + ["RadauIIA5", "LobattoIIIC4"]
+    for name in dom_methods:
+        for rep in range(3 if tier == "quick" else 10):
+            d_ = int(rngd.choice([1, -1]))
+            k_ = float(rngd.uniform(0.15, 0.6))
+            h0_ = float(rngd.uniform(0.5, 4.0))
+            te_ = 2.0 * np.sqrt(h0_) / k_
+            t0_ = float(rngd.choice([0.0, -4.0, 12.0, float(rngd.uniform(-20, 20))]))
+            L_ = te_ * float(rngd.uniform(0.9, 0.97))
+            cases.append(dict(kind="domain", method=name, dtype=str(rngd.choice(["float64", "float64", "float32"])) if M[name]["explicit"] else "float64",
+                              span=[t0_, t0_ + d_ * L_], dt=float(rngd.choice([0.42, 0.6, 0.8, 0.95])) * te_, dtfrac=0.7, history="single", tank=[k_, h0_],
+                              idle=bool(rngd.random() < 0.3) and M[name]["explicit"], pseed=int(rngd.integers(1 << 30)), dense=bool(rngd.random() < 0.3), cost=3 if M[name]["explicit"] else 12))
+            # (a zero absolute tolerance on an identically zero component asks an implicit method for an exact stage solve: it crawls at steps of 1e-6,
+            #  which is the request's doing - the idle component goes to explicit methods only)
     # runs that outgrow the 5000-row buffer, with and without events / dense output
     big = [("EulerSolver", False, False), ("RK4Solver", True, False), ("RK4Solver", False, True), ("SymplecticEulerSolver", False, False)]
     if tier == "thorough":
@@ -125,6 +143,25 @@ def run_case(spec):
                 out[-1] = 0
                 return out
         prob = _P
+    elif spec.get("kind") == "domain":
+        k_, h0_ = spec["tank"]
+
+        class _T:     # [tank level (sqrt: NaN below zero), optional idle component, clock]; along the direction of integration the level falls
+            @staticmethod
+            def rhs(t, y, **kw):
+                out = np.empty_like(y)
+                with np.errstate(all="ignore"):
+                    out[0] = -d * y.dtype.type(k_) * np.sqrt(y[0])
+                out[1:-1] = 0
+                out[-1] = 1
+                return out
+
+            @staticmethod
+            def y0(t0_, dt_):
+                out = np.zeros(3 if spec.get("idle") else 2, dtype=dt_)
+                out[0] = h0_
+                return out
+        prob = _T
     else:
         base = Manufactured(2, spec["pseed"], direction=d)
         if spec.get("tau"):
@@ -141,6 +178,11 @@ def run_case(spec):
         rec.skipped = "dt below 64 ulp of the time scale"
         return rec.out()
     tol = dict(rtol=1e-6, atol=1e-8) if spec["dtype"] != "float32" else dict(rtol=1e-3, atol=1e-4)
+    if spec.get("kind") == "domain":
+        feats["kind"] = "restricted_domain"
+        if spec.get("idle"):
+            tol = dict(rtol=tol["rtol"], atol=0.0)
+            feats["idle_component_relative_tolerance_only"] = True
     if spec.get("kind") == "closing":
         tgt = sysrun.closing_rejection_target(lambda: sysrun.make_system(prob.rhs, y0.copy(), t0, tf, spec["dt"], info["cls"], **tol))
         # the reference run over the whole span is a call like any other: same oracle
@@ -209,9 +251,20 @@ def run_case(spec):
             else:
                 # C03 speaks about successful integrations; a tolerance failure is C05/C12's subject
                 rec.bump("calls_raised_" + type(cause or seg["exc"]).__name__)
+                if spec.get("kind") == "domain":
+                    rec.bump("restricted_domain_calls_failed_loudly")
+                    rec.bump("restricted_domain_calls")
+                    rec.nontrivial = True
                 rec.sample = {"spec": spec, "raised": repr(cause or seg["exc"])[:200]}
             break
         rec.bump("calls_checked")
+        if spec.get("kind") == "domain":
+            rec.bump("restricted_domain_calls_succeeded")
+            rec.bump("restricted_domain_calls")
+            hs_ = (np.sqrt(spec["tank"][1]) - 0.5 * spec["tank"][0] * np.abs(np.asarray(system.t, dtype=np.float64) - t0)) ** 2
+            err_ = float(np.max(np.abs(np.asarray(system.y, dtype=np.float64)[:, 0] - hs_)))
+            if not (err_ <= 1e3 * (tol["atol"] + tol["rtol"] * spec["tank"][1]) * max(1, len(system))):      # (NaN fails this too)
+                rec.violate("accuracy", "successful_run_inaccurate_or_not_finite_on_restricted_domain_problem", f2, err=err_, rows=len(system))
         nrows = seg["i1"] - seg["i0"] + 1
         if nrows >= 3:
             rec.nontrivial = True
